@@ -40,7 +40,17 @@ func randSample(r *core.Rand, t *dyn.TypeInfo, allowNaN bool) dyn.Val {
 		return dyn.UintVal(v)
 	}
 	var f float64
-	switch r.Intn(12) {
+	switch r.Intn(13) {
+	case 12:
+		// around the largest float32: the band between MaxFloat32 and the IEEE
+		// halfway point to 2^128 still narrows to MaxFloat32, beyond it overflows
+		half := math.Ldexp(1, 128) - math.Ldexp(1, 103)
+		f = []float64{math.MaxFloat32, math.MaxFloat32 * (1 + 1e-9), math.Nextafter(math.MaxFloat32, math.Inf(1)), math.Nextafter(half, 0), half, math.Nextafter(half, math.Inf(1)), math.Ldexp(1, 128),
+			// and around the smallest ones: half the smallest subnormal float32 and its neighbours
+			math.Ldexp(1, -150), math.Nextafter(math.Ldexp(1, -150), 1), math.Nextafter(math.Ldexp(1, -150), 0), math.Ldexp(1, -149), math.Ldexp(1, -126), math.Nextafter(math.Ldexp(1, -126), 0)}[r.Intn(13)]
+		if r.Bool() {
+			f = -f
+		}
 	case 0:
 		f = math.Inf(1)
 	case 1:
